@@ -36,47 +36,6 @@ theorem luminaVerifyRange_ok {H : HashFn} {p : NsProof} {root : NsHash} {l : Lis
   · cases h
   · exact h
 
-/-- what an accepted single-leaf range proof against an axis root says about the axis' shares -/
-theorem axis_leaf_bound {H : HashFn} (hk : HashOK H) {e : Eds} {k : Nat} (hw : e.width = 2 ^ k)
-    (hsz : ∀ sh ∈ e.shares, NS_SIZE ≤ sh.data.length) {ax : Axis} {index i : Nat} {root : NsHash}
-    (hroot : e.axisRoot H ax index = .ok root) (hi : i < e.width)
-    {s : Sample} (hss : NS_SIZE ≤ s.share.data.length) (hsib : ∀ p ∈ s.proof.siblings, p.WF)
-    (hv : verifyRange H s.proof root [s.share.data] s.share.ns = .ok ()) (hst : s.proof.start = i) :
-    ∃ sh, e.share? (axisCoord ax index i).1 (axisCoord ax index i).2 = some sh ∧ sh.data = s.share.data := by
-  obtain ⟨shares, hax, hcr, _⟩ := axisRoot_ok hroot
-  obtain ⟨hlen, hget⟩ := axis?_some hax
-  obtain ⟨sh, hsh, hshi⟩ := hget i hi
-  refine ⟨sh, hsh, ?_⟩
-  -- every share of the axis is a share of the square
-  have hmem : ∀ x ∈ shares, x ∈ e.shares := by
-    intro x hx
-    obtain ⟨n, hn, rfl⟩ := List.getElem_of_mem hx
-    obtain ⟨y, hy1, hy2⟩ := hget n (by omega)
-    rw [List.getElem?_eq_getElem hn] at hy2
-    injection hy2 with hy2
-    rw [hy2]
-    exact List.mem_of_getElem? hy1
-  have al : AllLeaf H (shares.map (Share.leafHash H)) := by
-    intro x hx
-    obtain ⟨y, hy, rfl⟩ := List.mem_map.mp hx
-    exact ⟨y.ns, y.data, share_ns_length (hsz y (hmem y hy)), rfl⟩
-  have lx : IsLeaf H (hashLeaf H s.share.ns s.share.data) := ⟨_, _, share_ns_length hss, rfl⟩
-  unfold verifyRange at hv
-  split at hv
-  · cases hv
-  · split at hv
-    · cases hv
-    · simp only [List.map_cons, List.map_nil] at hv
-      rw [hst] at hv
-      have hL : (shares.map (Share.leafHash H)).length = 2 ^ k := by simp [hlen, hw]
-      have hik : i < 2 ^ k := by omega
-      have := checkRangeProof_single_sound hk al hL hcr lx hsib hik hv
-      rw [List.getElem?_map, hshi] at this
-      simp only [Option.map_some, Option.some.injEq, Share.leafHash] at this
-      have hns : sh.ns = s.share.ns := congrArg NsHash.minNs this
-      have hh : (hashLeaf H sh.ns sh.data).hash = (hashLeaf H s.share.ns s.share.data).hash := congrArg NsHash.hash this
-      exact (hashLeaf_inj hk (by rw [hns]) hh).2
-
 /-- what `ExtendedDataSquare::new` guarantees about a square, as far as sampling is concerned: power-of-two
     width `2^k` (1 ≤ k ≤ 16: the width is a `u16` ≥ 2), every share 512 bytes, parity flag set from the quadrant,
     original-data shares carry a valid namespace -/
